@@ -416,7 +416,12 @@ def run_case(tape, batch):
     definitely_invalid = []
     alltoks = [tk for tx in parsed_files for tk in L.scan(tx)[0]]
     bc = L.bracket_counts(alltoks)
-    if bc["{"] != bc["}"] or bc["("] != bc[")"]:
+    # Brackets must balance -- except inside a default-value / initialiser expression, where the grammar's
+    # nested-expression rule lets one kind of bracket stand alone inside the other kind (`= { ) }`), and a
+    # corruption can turn almost anything into such an initialiser (`class A = { ... };` is a variable named
+    # A of type `class`; `T operator== (...) const;` is a variable named `operator`).  Every initialiser
+    # needs an `=`: the counting argument is therefore applied only to text without any `=`.
+    if (bc["{"] != bc["}"] or bc["("] != bc[")"]) and "=" not in alltoks:
         definitely_invalid.append("unbalanced-brackets")
     if alltoks and alltoks[-1] not in (";", "}", ">"):
         definitely_invalid.append("last-token-cannot-end-a-declaration")
